@@ -105,6 +105,20 @@ Theorem C17_inside_is_below :
 Proof. exact inside_is_below. Qed.
 Print Assumptions C17_inside_is_below.
 
+(* containment is decided on components, not on the text of the path: the entry directory's component list
+   is a prefix of the component list of the file's directory; a sibling directory whose NAME merely extends
+   the entry directory's name (dae.d beside dae) is outside *)
+Theorem C17_inside_component_boundary :
+  forall d f, inside d f = true -> firstn (length (clean d)) (dir_of (clean f)) = clean d.
+Proof. exact C17_inside_component_boundary_proof. Qed.
+Print Assumptions C17_inside_component_boundary.
+
+Example C17_string_prefix_not_enough :
+  let d := comps (Bs "/x/dae") in
+  let f := comps (Bs "/x/dae.d/a.dae") in
+  firstn (length (render d)) (render (dir_of f)) = render d /\ inside d f = false.
+Proof. exact C17_string_prefix_not_enough_proof. Qed.
+
 Theorem C17_outside_never_read :
   forall os entry_dir fuel expand entry m vis f,
     dfs_merge fuel (fs_of os entry_dir) expand [] entry = Ok (m, vis) ->
